@@ -7,6 +7,7 @@ package netstate
 // events are built from rtnetlink link messages through the real process().
 
 import (
+	"errors"
 	"context"
 	"encoding/json"
 	"fmt"
@@ -79,6 +80,7 @@ func c19Prop(t *testing.T, k *verifkit.Kit) func(c c19Case) error {
 				endC := make(chan struct{})
 				started := make(chan struct{})
 				var post []rtnetlink.Message // messages already received when the watch is cancelled
+				var endErr error             // what the scripted watch function returns
 				w.watch = func(ctx context.Context, notify func(changeSet)) error {
 					mu.Lock()
 					notifyFn = notify
@@ -96,7 +98,10 @@ func c19Prop(t *testing.T, k *verifkit.Kit) func(c c19Case) error {
 					if len(p) > 0 {
 						notify(process(p))
 					}
-					return nil
+					// the event source may also end with an error (a failing Receive, as osWatch reports it)
+					mu.Lock()
+					defer mu.Unlock()
+					return endErr
 				}
 				// no cancellation on the failure paths: a notifier blocked while holding the
 				// watcher's lock must leave every goroutine durably blocked (channel
@@ -105,7 +110,8 @@ func c19Prop(t *testing.T, k *verifkit.Kit) func(c c19Case) error {
 				watchDone := make(chan struct{})
 				wctx, wcancel := context.WithCancel(context.Background())
 				_ = wcancel // only called by the "end" action, never on a failure path
-				go func() { _ = w.Watch(wctx); close(watchDone) }()
+				var watchErr error
+				go func() { watchErr = w.Watch(wctx); close(watchDone) }()
 				<-started
 				var subs []*c19Sub
 				ended := false
@@ -234,15 +240,25 @@ func c19Prop(t *testing.T, k *verifkit.Kit) func(c c19Case) error {
 						mu.Lock()
 						post = msgs
 						mu.Unlock()
-						if a.N%2 == 0 {
+						switch a.N % 3 {
+						case 0:
 							wcancel() // the watch ends because its context is cancelled (as in production)
-						} else {
+						case 1:
 							close(endC) // ... or because the event source ended
+						default:
+							mu.Lock()
+							endErr = errors.New("verif: the event source failed") // ... or failed
+							mu.Unlock()
+							close(endC)
 						}
 						select {
 						case <-watchDone:
 						case <-time.After(time.Minute):
 							fail("C19/watch-does-not-end", "Watch did not return")
+							return
+						}
+						if (a.N%3 == 2) != (watchErr != nil) {
+							fail("C19/watch-result", "end kind %d: Watch returned %v", a.N%3, watchErr)
 							return
 						}
 					}
@@ -308,7 +324,7 @@ func c19Gen(t *rapid.T) c19Case {
 			c.Actions = append(c.Actions, c19Action{Kind: "drain", Sub: rapid.IntRange(0, 7).Draw(t, "sub"), N: rapid.IntRange(1, 10).Draw(t, "n")})
 		case 4:
 			if rapid.IntRange(0, 3).Draw(t, "end") == 0 {
-				a := c19Action{Kind: "end", N: rapid.IntRange(0, 1).Draw(t, "endkind")}
+				a := c19Action{Kind: "end", N: rapid.IntRange(0, 2).Draw(t, "endkind")}
 				for j, m := 0, rapid.IntRange(0, 3).Draw(t, "inflight"); j < m; j++ {
 					a.Links = append(a.Links, c19Link{Iface: rapid.SampledFrom(c19Ifaces).Draw(t, "eiface"), Oper: rapid.SampledFrom([]int{2, 6, 5}).Draw(t, "eoper")})
 				}
